@@ -327,6 +327,17 @@ func (p *Pipe) Written() []byte {
 	return append([]byte{}, p.written...)
 }
 
+// WrittenFrom returns a copy of what was written from offset off on (a peer that follows a
+// long conversation does not copy all of it at every look).
+func (p *Pipe) WrittenFrom(off int) []byte {
+	p.mu.Lock()
+	defer p.mu.Unlock()
+	if off >= len(p.written) {
+		return nil
+	}
+	return append([]byte{}, p.written[off:]...)
+}
+
 // WrittenLen returns the number of bytes written so far.
 func (p *Pipe) WrittenLen() int {
 	p.mu.Lock()
